@@ -229,9 +229,15 @@ func ParsePPSNALUnit(data []byte, spsMap map[uint32]*SPS) (*PPS, error) {
 		if !pps.UniformSpacingFlag {
 			for i := uint(0); i < pps.NumTileColumnsMinus1; i++ {
 				pps.ColumnWidthMinus1 = append(pps.ColumnWidthMinus1, r.ReadExpGolomb())
+				if r.AccError() != nil { // Don't go on after end of data
+					return nil, r.AccError()
+				}
 			}
 			for i := uint(0); i < pps.NumTileRowsMinus1; i++ {
 				pps.RowHeightMinus1 = append(pps.RowHeightMinus1, r.ReadExpGolomb())
+				if r.AccError() != nil { // Don't go on after end of data
+					return nil, r.AccError()
+				}
 			}
 		}
 		pps.LoopFilterAcrossTilesEnabledFlag = r.ReadFlag()
